@@ -532,6 +532,13 @@ func EncodeToIEDataType(dataType IEDataType, val interface{}) ([]byte, error) {
 // encoded faithfully for its information element: wrong address family, wrong length for a
 // fixed-length element, or a variable-length value that is too long.
 func validateValueForEncoding(element InfoElementWithValue) error {
+	// Values of the fixed-size data types are always written at the full size of the type:
+	// an element declared with another length (reduced-size encoding) cannot be encoded.
+	if typeLen, ok := InfoElementLength[element.GetDataType()]; ok && typeLen != VariableLength && typeLen != 0 {
+		if ieLen := element.GetInfoElement().Len; ieLen != typeLen {
+			return fmt.Errorf("element %s is declared with length %d: only the full length of its data type (%d) is supported", element.GetName(), ieLen, typeLen)
+		}
+	}
 	switch element.GetDataType() {
 	case OctetArray:
 		v := element.GetOctetArrayValue()
